@@ -15,6 +15,7 @@ import sys
 import tempfile
 import time
 
+import numpy as real_np
 import z3
 
 from symx import core, fp, loader, slicer
@@ -552,6 +553,8 @@ rng = np.random.default_rng(1)
 img = rng.normal(0, 1, (H, W)).astype(np.float32)
 if cfg.get('nan'):
     img[0, 0] = np.nan
+if cfg.get('nanpatch'):
+    img[2:5, 3:8] = np.nan          # blanks in the first stripe only
 fn = os.path.join(os.path.dirname(sys.argv[1]), 'img.fits')
 hdr = fits.Header(); hdr['BMAJ'] = 1.0; hdr['BMIN'] = 1.0; hdr['CDELT1'] = -0.25; hdr['CDELT2'] = 0.25
 fits.PrimaryHDU(img, header=hdr).writeto(fn, overwrite=True)
@@ -619,9 +622,12 @@ def run_bane(cfg, schedule=None, timeout=40):
 
 def replay_run(w):
     cfg = dict(H=int(w['H']), nslice=int(w['nslice']), cores=int(w['cores']), step=int(w.get('step', 4)))
+    for k in ('nanpatch', 'mask', 'nan'):
+        if k in w:
+            cfg[k] = w[k]
     r = run_bane(cfg)
     if r['hung']:
-        return True, 'deadlock:stripes>pool', 'filter_image(rows=%(H)d, cores=%(cores)d, nslice=%(nslice)d, grid=%(step)d) did not return within 40 s' % cfg
+        return True, ('deadlock:stripes>pool' if not cfg.get('nanpatch') else 'deadlock:barrier-arrivals'), 'filter_image(rows=%(H)d, cores=%(cores)d, nslice=%(nslice)d, grid=%(step)d%s) did not return within 40 s' % cfg + (', blanks in the first stripe only' if cfg.get('nanpatch') else '')
     if r['leaked']:
         return True, 'segment-leak', 'shared memory left behind: %s' % r['leaked']
     if 'raised' in r['result']:
@@ -683,12 +689,62 @@ def replay_fault(w):
     return False, None, r['result']
 
 
+def k_stripes(rep):
+    """every stripe of the real sigma_filter (the C06 K-exec machinery) with blank pixels in some stripes only: the number of
+    barrier arrivals must not depend on a stripe's own data"""
+    from checks import C06
+    rep.kernel('K-stripes', functions=[F + ':sigma_filter'], bounds='the whole function for all stripes of 8x6 / 12x6 images (2-3 stripes), blank pixels in none / the first / the last stripe only, masking on and off; symbolic pixels',
+               stubs=['as C06 K-exec; barrier -> one worker at a time with deadlock detection (a stripe left waiting when all others wait or have returned)'],
+               outside=['which interleavings are possible (K-protocol)'])
+    bane = loader.load_private(['BANE'])['BANE']
+    loader.patch(bane, builtins=False)
+    cfgs = []
+    for H, stripes in ((8, [(0, 4), (4, 8)]), (12, [(0, 4), (4, 8), (8, 12)])):
+        for blanks in ({}, {(0, 0): 'nan'}, {(H - 1, 5): 'nan'}, {(0, 1): 'inf'}):
+            for domask in (True, False):
+                cfgs.append(dict(H=H, W=6, stripes=stripes, blanks=blanks, domask=domask))
+
+    def mk(cfg):
+        def h(c):
+            sp = {'nan': float('nan'), 'inf': float('inf')}
+            a = real_np.empty((cfg['H'], cfg['W']), dtype=object)
+            for r in range(cfg['H']):
+                for cc in range(cfg['W']):
+                    k = cfg['blanks'].get((r, cc))
+                    a[r, cc] = sp[k] if k else core.real('p_%d_%d' % (r, cc))
+            tag = 'stripes[%d rows, %d stripes, blanks %s, mask %s]' % (cfg['H'], len(cfg['stripes']), sorted(cfg['blanks']) or 'none', cfg['domask'])
+            try:
+                C06.run_bane_sym(c, bane, a, cfg['stripes'], (2, 2), (4, 4), domask=cfg['domask'])
+            except C06.Deadlock as e:
+                c.oblige(tag + ':every stripe arrives at every barrier (none left waiting)', z3.BoolVal(False), info=str(e))
+                return dict(deadlock=str(e))
+            c.oblige(tag + ':every stripe arrives at every barrier (none left waiting)', z3.BoolVal(True))
+            c.oblige(tag + ':barrier passed once per phase boundary', z3.BoolVal(bane.barrier.gen == (2 if cfg['domask'] else 1)), info='generations=%d' % bane.barrier.gen)
+            return dict()
+        return h
+    done = False
+    for cfg, (st, res) in zip(cfgs, core.explore_many([(mk(cf), dict(wall_s=300)) for cf in cfgs], workers=8)):
+        rep.stats(st)
+        for r in res:
+            for ob in r['obligations']:
+                rep.count(ob['result'], ob['name'])
+                if ob['result'] == 'sat' and not done:
+                    for w in (dict(kind='layout', H=64, nslice=4, cores=4, step=4, nanpatch=True, mask=True), dict(kind='layout', H=64, nslice=4, cores=4, step=4, nanpatch=True, mask=False),
+                              dict(kind='layout', H=64, nslice=2, cores=2, step=4, mask=True)):
+                        bad, cls, detail = replay_run(dict(w))
+                        if bad:
+                            break
+                    if rep.finding('C07/K-stripes/%s' % (cls or 'barrier-arrivals'), w, detail or ob['name'], reproduced=bool(bad)) != 'not-reproduced':
+                        done = True
+    rep.end_kernel()
+
+
 def k_real_runs(rep):
     """property-level runs of the real filter_image: layouts incl. stripes > cores, and one fault per phase"""
     rep.kernel('K-replay-oracle', functions=[F + ':filter_image'], bounds='real runs under a watchdog: 6 layouts (incl. stripes > cores and realised stripes > requested), 3 fault points',
                assumes=['these are concrete executions (validation of the model and replay oracle), not solver verdicts'])
     for cfg in (dict(H=101, nslice=2, cores=2, step=4), dict(H=64, nslice=4, cores=2, step=4), dict(H=40, nslice=1, cores=1, step=4), dict(H=33, nslice=3, cores=3, step=8),
-                dict(H=7, nslice=2, cores=2, step=4), dict(H=50, nslice=6, cores=3, step=2)):
+                dict(H=7, nslice=2, cores=2, step=4), dict(H=50, nslice=6, cores=3, step=2), dict(H=64, nslice=4, cores=4, step=4, nanpatch=True)):
         bad, cls, detail = replay_run(dict(cfg))
         rep.validated_runs(1)
         if bad:
@@ -705,14 +761,14 @@ def k_real_runs(rep):
 
 def run(rep):
     rep.assume('hook guard AEGEAN_VERIF=1 (delays/faults at phase boundaries) is used only by the replays')
-    try:
-        sk = skeleton()
-    except slicer.AnchorMissing as e:
-        rep.inconc('anchor-missing %s' % e)
-        return
     k_width(rep)
     k_layout(rep)
-    k_protocol(rep, sk)
+    try:
+        sk = skeleton()
+        k_protocol(rep, sk)
+    except slicer.AnchorMissing as e:
+        rep.inconc('K-protocol: anchor-missing %s' % e)
+    k_stripes(rep)
     k_cleanup(rep)
     k_real_runs(rep)
     rep.not_decided += ['bit-identical maps for every worker count (follows from the ordering obligations for a fixed layout; numeric equality not decided)',
